@@ -43,8 +43,9 @@ FAULTS = {
     'raw.write': [('errno', E.ENOSPC), ('errno', E.EIO), ('errno', E.EDQUOT), ('short', 1), ('short', 3), ('disk-full', 0)],
     'fsync': [('errno', E.EIO), ('errno', E.ENOSPC)],
     'raw.close': [('errno', E.EIO)],
-    'rename': [('errno', E.EACCES), ('errno', E.EPERM), ('errno', E.ENOSPC), ('errno', E.EIO), ('errno', E.EXDEV)],
-    'link': [('errno', E.EPERM), ('errno', E.EMLINK), ('errno', E.EXDEV)],
+    'rename': [('errno', E.EACCES), ('errno', E.EPERM), ('errno', E.ENOSPC), ('errno', E.EIO), ('errno', E.EXDEV),
+               ('errno', E.EBUSY), ('errno', E.EINTR)],
+    'link': [('errno', E.EPERM), ('errno', E.EMLINK), ('errno', E.EXDEV), ('errno', E.EBUSY), ('errno', E.EINTR)],
 }
 CLEANUP_FAULTS = [('errno', E.EACCES), ('errno', E.EIO)]
 EXTRA_FAULTS = [('errno', E.EINVAL), ('errno', E.EIO)]
